@@ -135,6 +135,10 @@ func (core *JApiCore) checkPathBody(d *directive.Directive) *jerr.JApiError {
 	}
 
 	err := core.userTypes.Each(func(k string, v schema.Schema) error {
+		if k == "" {
+			// A TYPE directive without a name: the error is reported for that directive.
+			return nil
+		}
 		if _, ok := v.(*regex.RSchema); ok {
 			// Adding a regex type takes an example from its generator, which would
 			// change the example in the catalog: work with a copy.
